@@ -204,6 +204,10 @@ def check_nack(ctx, rng, fe):
         await T.start()
         names = {'A': [C(b'n'), C(b'a')], 'B': [C(b'n'), C(b'b')], 'AB': [C(b'n'), C(b'a'), C(b'b')], 'N': [C(b'n')]}
         knames = dict(names)
+        if fe == 'v2':
+            T.app.attach_handler([C(b'n')], lambda n, p, reply, c: T.log.append(('handler', tuple(bytes(x) for x in n), None, None)))
+        else:
+            T.app.set_interest_filter([C(b'n')], lambda n, p, a: T.log.append(('handler', tuple(bytes(x) for x in n), None, None)))
         for i in range(n):
             for k, nm in names.items():
                 if k not in T.pend or T.pend[k].done():
@@ -216,7 +220,7 @@ def check_nack(ctx, rng, fe):
             reason = rng.choice(REASONS) if rng.random() < 0.8 else rng.getrandbits(rng.randint(1, 64))
             iw = bytes(make_interest(names[target], InterestParam(nonce=rng.getrandbits(32), can_be_prefix=(target == 'N'), lifetime=4000)))
             hs = header_set(rng)
-            env = rc.make_lp(fragment=iw, nack_reason=reason, headers=hs)
+            env = rc.make_lp(fragment=iw, nack_reason=reason, headers=hs, pit_token=rng.choice([None, None, b'', b'\x01\x02\x03\x04', gen.rand_bytes(rng, 8)]))
             snap = T.snapshot()
             expect_keys = [k for k, t in T.pend.items() if not t.done() and knames.get(k) == names[target]]
             ctx.event('nack-multi-target' if len(expect_keys) > 1 else 'nack-single-target')
@@ -237,6 +241,8 @@ def check_nack(ctx, rng, fe):
                 res['viol'].append((f'{mech}:{fe}', f'Nack for {target} reason {reason}: completions {got}, expected {exp}', w))
             if sent:
                 res['viol'].append((f'nack-caused-output:{fe}', 'a Nack made the app transmit something', w))
+            if any(e[0] == 'handler' for e in log):
+                res['viol'].append((f'nack-dispatched-as-interest:{fe}', 'the Interest inside a Nack envelope was handed to an Interest handler', w))
         await T.stop()
 
     S = vtime.run(main)
